@@ -242,10 +242,9 @@ Print Assumptions C01_multi_copy_remove_refuted.
    Mixing through handles: the receiver's flow data ends with the sum of what the inlet handles showed -
    also when inlets share the receiver's data (its proxy as the only non-empty inlet, its own
    sub-streams among several inlets) - every handle on that data sees the result (handles only read the
-   cell), every other flow data is untouched.  The hypothesis excludes exactly one case, refuted below. *)
+   cell), every other flow data is untouched.  *)
 Theorem C01_alias_mix_value : forall a r ins eb hf a' vst h,
   views (cells a) (hs a) = Ok vst -> wf_store vst -> nth_error (hs a) r = Some h ->
-  (eb = true -> own_view_only (hs a) vst r ins = false) ->
   mix_rebind vst r ins eb hf = None ->
   astep a (OMix r ins eb hf) = Ok a' ->
   exists x, nth_error (cells a') (hcell h) = Some x /\
@@ -259,7 +258,6 @@ Print Assumptions C01_alias_mix_value.
    the other handles stay on the old data and are no longer updated *)
 Theorem C01_alias_mix_value_rebind : forall a r ins eb hf a' vst h resid,
   views (cells a) (hs a) = Ok vst -> wf_store vst -> nth_error (hs a) r = Some h ->
-  (eb = true -> own_view_only (hs a) vst r ins = false) ->
   mix_rebind vst r ins eb hf = Some resid ->
   astep a (OMix r ins eb hf) = Ok a' ->
   exists x, nth_error (hs a') r = Some (HCell (length (cells a))) /\
@@ -268,33 +266,29 @@ Theorem C01_alias_mix_value_rebind : forall a r ins eb hf a' vst h resid,
     length (cells a') = S (length (cells a)).
 Proof. exact alias_mix_value_rebind. Qed.
 Print Assumptions C01_alias_mix_value_rebind.
-(* without that hypothesis the statement is REFUTED by the faithful model: an energy-balanced mix of a
-   MultiStream whose only non-empty inlet is one of its own sub-streams empties it (MaterialIndexer.copy_like
-   starts with self.empty(), which wipes the source row before it is read) *)
-Definition C01_alias_mix_value_statement : Prop :=
-  forall a r ins eb hf a' vst h,
-  views (cells a) (hs a) = Ok vst -> wf_store vst -> nth_error (hs a) r = Some h ->
-  astep a (OMix r ins eb hf) = Ok a' ->
-  exists x, nth_error (cells a') (hcell h) = Some x /\ forall c, tot x c == qsum (map (tot_at vst c) ins).
-Definition aW : astore := mka [MS (mkm wP [Pg; Pl] [[1; 0; 0]; [0; 2; 4]])] [HCell 0; HView 0 Pl].
-Definition aW_views : store := match views (cells aW) (hs aW) with Ok v => v | Err _ => [] end.
-Definition aW' : astore := match astep aW (OMix 0 [1]%nat true 0) with Ok x => x | Err _ => aW end.
-Lemma aW_views_wf : wf_store aW_views.
-Proof.
-  split.
-  - intros s [H|[H|[]]]; subst; unfold wf_stream, wf_pkg; simpl;
-      (split; [repeat constructor; simpl; intuition lia|]);
-      (split; [intros r0 R; repeat (destruct R as [R|R]; [subst; reflexivity|]); destruct R|]);
-      (split; [reflexivity | repeat split; repeat constructor; simpl; lia]).
-  - intros x y [A|[A|[]]] [B|[B|[]]]; subst; unfold coherent; simpl; intros E; reflexivity.
-Qed.
-Theorem C01_alias_mix_value_refuted : ~ C01_alias_mix_value_statement.
-Proof.
-  intros H.
-  destruct (H aW 0%nat [1]%nat true 0%nat aW' aW_views (HCell 0) eq_refl aW_views_wf eq_refl eq_refl) as [x [N V]].
-  vm_compute in N. inversion N; subst x. specialize (V 0%nat). vm_compute in V. discriminate.
-Qed.
-Print Assumptions C01_alias_mix_value_refuted.
+(* a MultiStream whose phases are reset (split_to on an outlet that was used before, multi-phase fallback) gets new
+   rows: the stream moves to the new cell and its cached sub-streams of the phases that survive are re-pointed to it *)
+Theorem C01_alias_views_follow : forall a vst vst' o k j m' resid a',
+  nth_error (hs a) k = Some (HCell j) -> gets vst' k = Ok (MS m') ->
+  rebind_info vst o k = Some resid -> kind_at vst k = true ->
+  write_target a vst vst' o k = Ok a' ->
+  nth_error (hs a') k = Some (HCell (length (cells a))) /\
+  nth_error (cells a') (length (cells a)) = Some (MS m') /\
+  forall q p lbl, q <> k -> nth_error (hs a) q = Some (HView j p lbl) -> in_indexer lbl (mphases m') = true ->
+              nth_error (hs a') q = Some (HView (length (cells a)) (if pmem lbl (mphases m') then lbl else swapcase lbl) lbl).
+Proof. exact views_follow. Qed.
+Print Assumptions C01_alias_views_follow.
+(* the case that used to be excluded (and refuted): the only non-empty inlet of an energy-balanced mix is one of
+   the receiver's own sub-streams; since a4a2555 MaterialIndexer.copy_like copies the source row before it empties
+   the receiver, so the theorems above cover it (Example C01_nonvacuous_alias_own_substream) *)
+Definition aW : astore := mka [MS (mkm wP [Pg; Pl] [[1; 0; 0]; [0; 2; 4]])] [HCell 0; HView 0 Pl Pl].
+Example C01_nonvacuous_alias_own_substream :
+  match astep aW (OMix 0 [1]%nat true 0) with
+  | Ok a' => match views (cells a') (hs a') with
+             | Ok v => store_eqb v [MS (mkm wP [Pg; Pl] [[0; 0; 0]; [0; 2; 4]]); SS (mkc wP Pl [0; 2; 4])]
+             | Err _ => false end
+  | Err _ => false end = true /\ mix_rebind [MS (mkm wP [Pg; Pl] [[1; 0; 0]; [0; 2; 4]]); SS (mkc wP Pl [0; 2; 4])] 0 [1]%nat true 0 = None.
+Proof. split; vm_compute; reflexivity. Qed.
 
 (* ===== scaling ===== *)
 Theorem C01_scale_value : forall k s c, tot (scale k s) c == k * tot s c.
@@ -304,6 +298,13 @@ Theorem C01_scale_rows : forall k s, spkg (scale k s) = spkg s /\ sphases (scale
   srows (scale k s) = map (vscale k) (srows s).
 Proof. exact scale_rows_lemma. Qed.
 Print Assumptions C01_scale_rows.
+(* the mass flows are a view of the same data (MW * molar flow, one weight per chemical): scaling by k -
+   k = 0 included - multiplies every mass flow by k *)
+Theorem C01_scale_mass : forall mw k s, (forall r, In r (srows s) -> length r = length mw) ->
+  length (mass_rows mw (scale k s)) = length (mass_rows mw s) /\
+  forall j i, nthq (nth j (mass_rows mw (scale k s)) []) i == k * nthq (nth j (mass_rows mw s) []) i.
+Proof. exact scale_mass_lemma. Qed.
+Print Assumptions C01_scale_mass.
 
 (* ===== non-vacuity ===== two packages listing shared chemicals in another order, a
    multi-phase inlet, the receiver among the inlets twice, single- and multi-phase receivers *)
@@ -373,7 +374,7 @@ Proof. eexists; eexists. split; [|split]; vm_compute; reflexivity. Qed.
 Definition exA : astore :=
   mka [SS (mkc exP1 Pl [1; 2; 0]); SS (mkc exP1 Pg [0; 0; 0]); MS (mkm exP1 [Pg; Pl] [[1; 0; 0]; [0; 2; 4]]);
        SS (mkc exP1 Ps [0; 1; 1])]
-      [HCell 0; HCell 1; HCell 2; HCell 3; HProxy 0 Pg; HView 2 Pl].
+      [HCell 0; HCell 1; HCell 2; HCell 3; HProxy 0 Pg; HView 2 Pl Pl].
 Example C01_nonvacuous_alias :
   match astep exA (OMix 0 [4; 1]%nat true 0) with
   | Ok a1 => match views (cells a1) (hs a1) with
